@@ -41,6 +41,7 @@ class TS(Hooks):
         self.hparams = {p['id']: i for i, p in enumerate(F.params) if k6.base_record(p['t']) == HANDLE and p['t'].endswith('*')}
         self.uses = []              # (eid, callee, member, live?) final pass
         self.ready_calls = []       # (eid, ready_state value before the call) for _make_decode_ready
+        self.info_clears = []       # (eid, decoder cleared?, ready_state) for vorbis_info_clear on the handle's set-up
         self.calls_unknown = []
 
     # -- state ------------------------------------------------------------------------------------
@@ -81,6 +82,18 @@ class TS(Hooks):
                     return self.hparams[b['decl']['id']], m['field']
         if x['k'] == 'ref' and x['decl'].get('id') in self.hparams:
             return self.hparams[x['decl']['id']], None
+        # vf->vi, vf->vi+link, &vf->vi[link]: the handle's set-up array
+        y = x
+        if y['k'] == 'un' and y['op'] == '&':
+            y = F.ex[F.strip_casts(y['c'][0])]
+            if y['k'] == 'sub':
+                y = F.ex[F.strip_casts(y['c'][0])]
+        if y['k'] == 'bin' and y['op'] == '+':
+            y = F.ex[F.strip_casts(y['c'][0])]
+        if y['k'] == 'member' and y.get('record') == HANDLE and y['field'] in ('vi',):
+            b = F.ex[F.strip_casts(y['c'][0])]
+            if b['k'] == 'ref' and b['decl'].get('id') in self.hparams:
+                return self.hparams[b['decl']['id']], y['field']
         return None
 
     def set_live(self, env, i, member, live):
@@ -133,6 +146,10 @@ class TS(Hooks):
             hm = self.handle_member(A, env, args[0])
             if hm:
                 self.ready_calls.append((e, pre.get(hm[0])))
+        if d == 'vorbis_info_clear' and args and A.final:
+            hm = self.handle_member(A, env, args[0])
+            if hm and hm[1] == 'vi':
+                self.info_clears.append((e, f'vd@{hm[0]}' not in self.flags(env), self._rs(A, env, hm[0])))
         if d in NEEDS_LIVE and NEEDS_LIVE[d] and args and A.final:
             hm = self.handle_member(A, env, args[0])
             if hm and hm[1]:
